@@ -8,16 +8,22 @@ Ltac Zify.zify_post_hook ::= Z.to_euclidean_division_equations.
 
 Section Safety.
 Variables (ic : icfg) (tc : tcfg) (fuel : nat) (timeout : Z).
+(* norx: the target application never calls send_timeout_extension *)
+Variable norx : Prop.
 Hypothesis H106 : ic_106 ic = tc_106 tc.
 Hypothesis Hdid : tc_did tc = ic_did ic.
 Hypothesis Hmt : 1 <= tc_miu tc /\ tc_miu tc + 3 + b2z (is_some (tc_did tc)) + b2z (is_some (tc_nad tc)) <= 254.
 Hypothesis Hmi : 1 <= ic_miu ic /\ ic_miu ic + 3 + b2z (is_some (ic_did ic)) + b2z (is_some (ic_nad ic)) <= 254.
 Hypothesis Hfuel : Z.max 0 timeout < Z.of_nat fuel.
 
-(* scripts on which every protocol step succeeds: no fault at all, or isolated single faults *)
-Definition Good (sc : list (fate * fate)) : Prop := (sc = [] /\ 1 <= timeout) \/ (Sparse sc /\ 2 <= timeout).
-(* the responses of the ideal run: information PDUs, or an ACK to a chained information PDU *)
-Definition fmt_ok (r d : deppdu) : Prop := fmt r = F_INF \/ fmt r = F_MORE \/ (fmt r = F_ACK /\ fmt d = F_MORE).
+(* scripts on which every protocol step succeeds: no fault at all, or isolated single faults - where a corrupted RTOX
+   response is not recoverable by design (an RTOX response to NAK is a protocol error), so either no response is
+   corrupted (and the time-out covers the largest RTOX value) or the target application requests no extension *)
+Definition Good (sc : list (fate * fate)) : Prop :=
+  (sc = [] /\ 1 <= timeout) \/ (Sparse sc /\ NC sc /\ 60 <= timeout) \/ (Sparse sc /\ 2 <= timeout /\ norx).
+(* what the target answers in the ideal run: information PDUs, an ACK to a chained information PDU, or an RTOX *)
+Definition fmt_ok (r d : deppdu) (sc : list (fate * fate)) : Prop :=
+  fmt r <> F_NAK /\ (fmt r = F_INF \/ fmt r = F_MORE \/ (fmt r = F_ACK /\ fmt d = F_MORE) \/ sc = [] \/ NC sc).
 
 (* one call of send_dep_req_recv_dep_res for a request the target is ready to accept *)
 Lemma srr_call p w out w' t0 t1 d r :
@@ -27,26 +33,41 @@ Lemma srr_call p w out w' t0 t1 d r :
   srr fuel ic tc p d 1 timeout w = (out, w') ->
   (w_t w' = t0 \/ w_t w' = awake t0 \/ w_t w' = t1) /\
   ((out = Ok r /\ w_t w' = t1) \/ (exists e, out = Err e /\ comm e)) /\
-  (Good (w_script w) -> fmt_ok r d -> out = Ok r /\ Good (w_script w')).
+  (Good (w_script w) -> fmt_ok r d (w_script w) -> out = Ok r /\ Good (w_script w')).
 Proof.
   intros Hreq Hf HI Hpos Hnew Hfirst Hacc Hw Hp H.
   assert (Hin : InS t0 t1 (w_t w)) by (left; exact Hw).
   destruct (srr_safe ic tc H106 Hdid Hmt Hmi t0 t1 d r Hreq Hf HI Hpos Hnew Hfirst Hacc fuel p 1 timeout w out w' Hin Hp ltac:(lia) H) as (A & B).
   split; [exact A|]. split.
   - destruct B as [B|[B|[_ B]]]; [left; exact B | right; exact B | lia].
-  - intros [[Hs Hto]|[Hs Hto]] Hn.
-    + destruct (srr_nofault ic tc H106 Hdid Hmt Hmi t0 t1 d r Hreq Hf HI Hpos Hnew Hfirst Hacc fuel p 1 timeout w Hin) as (w2 & E & _ & E2 & _);
-        [rewrite Hs; reflexivity | lia | exact Hto | lia | unfold fmt_ok, F_INF, F_MORE, F_ACK, F_NAK in *; lia|].
-      rewrite E in H. injection H as <- <-. split; [reflexivity|]. left. rewrite E2, Hs. auto.
-    + destruct (srr_sparse ic tc H106 Hdid Hmt Hmi t0 t1 d r Hreq Hf HI Hpos Hnew Hfirst Hacc fuel p timeout w (or_introl Hw) Hp Hs Hto ltac:(lia)) as (w2 & E & _ & E2 & _).
-      { destruct Hn as [Hn|[Hn|Hn]]; auto. }
-      rewrite E in H. injection H as <- <-. split; [reflexivity|]. right. auto.
+  - intros HG [Hnak Hn].
+    assert (Hnof : w_script w = [] -> 1 <= timeout -> out = Ok r /\ w_script w' = []).
+    { intros Hs Hto.
+      destruct (srr_nofault ic tc H106 Hdid Hmt Hmi t0 t1 d r Hreq Hf HI Hpos Hnew Hfirst Hacc fuel p 1 timeout w Hin) as (w2 & E & _ & E2 & _);
+        [rewrite Hs; reflexivity | lia | exact Hto | lia | exact Hnak|].
+      rewrite E in H. injection H as <- <-. split; [reflexivity|]. rewrite E2, Hs. reflexivity. }
+    assert (Hsp : Sparse (w_script w) -> 2 <= timeout ->
+               ((fmt r = F_INF \/ fmt r = F_MORE) \/ (fmt r = F_ACK /\ fmt d = F_MORE) \/ NC (w_script w)) ->
+               out = Ok r /\ Sparse (w_script w') /\ exists k, w_script w' = skipn k (w_script w)).
+    { intros Hs Hto Hfr.
+      destruct (srr_sparse ic tc H106 Hdid Hmt Hmi t0 t1 d r Hreq Hf HI Hpos Hnew Hfirst Hacc fuel p timeout w Hnak (or_introl Hw) Hp Hs Hto ltac:(lia) Hfr) as (w2 & E & _ & E2 & E3).
+      rewrite E in H. injection H as <- <-. auto. }
+    destruct HG as [[Hs Hto]|[(Hs & Hnc & Hto)|(Hs & Hto & Hx)]].
+    + destruct (Hnof Hs Hto) as [-> E]. split; [reflexivity|]. left. auto.
+    + destruct (Hsp Hs ltac:(lia)) as (-> & S' & k & Ek); [tauto|].
+      split; [reflexivity|]. right; left. rewrite Ek at 2. split; [exact S'|]. split; [apply NC_skipn, Hnc | exact Hto].
+    + destruct Hn as [Hn|[Hn|[Hn|[He|Hnc]]]].
+      * destruct (Hsp Hs Hto) as (-> & S' & _); [tauto|]. split; [reflexivity|]. right; right. auto.
+      * destruct (Hsp Hs Hto) as (-> & S' & _); [tauto|]. split; [reflexivity|]. right; right. auto.
+      * destruct (Hsp Hs Hto) as (-> & S' & _); [tauto|]. split; [reflexivity|]. right; right. auto.
+      * destruct (Hnof He ltac:(lia)) as [-> E]. split; [reflexivity|]. left. split; [exact E | lia].
+      * destruct (Hsp Hs Hto) as (-> & S' & _); [tauto|]. split; [reflexivity|]. right; right. auto.
 Qed.
 
 Lemma inf_fmt q sd : fmt (inf tc q sd) = F_INF \/ fmt (inf tc q sd) = F_MORE.
 Proof. unfold inf; cbn. destruct (tc_miu tc <? len sd); auto. Qed.
-Lemma inf_fmt3 q sd d : fmt_ok (inf tc q sd) d.
-Proof. unfold fmt_ok. destruct (inf_fmt q sd); auto. Qed.
+Lemma inf_fmt3 q sd d sc : fmt_ok (inf tc q sd) d sc.
+Proof. unfold fmt_ok. destruct (inf_fmt q sd) as [E|E]; rewrite E; split; auto; unfold F_INF, F_MORE, F_NAK; lia. Qed.
 
 Lemma awake_out t : t_out (awake t) = t_out t.
 Proof. unfold awake. destruct (t_pos t); reflexivity. Qed.
@@ -58,16 +79,58 @@ Definition Safe (out0 : list tres) (x : list Z) (t : tgt) : Prop :=
 Lemma take_all {A} n (l : list A) : len l <= n -> take n l = l.
 Proof. intro H. unfold take. apply firstn_all2. unfold len in H. lia. Qed.
 
+(* the last information PDU of a payload: it goes to the application, which requests the time-out extensions rt
+   one after the other and then answers with resp *)
+Lemma ready_last_gen t q acc d rt resp rest : Ready tc t q acc -> fmt d = F_INF -> pni d = q ->
+  t_app t = (rt, resp) :: rest -> resp <> [] -> Forall rt_ok rt ->
+  exists t1 r1, t_accept tc t d = (t1, Some (PDepRes r1)) /\
+                Rph tc q resp rest (t_out t ++ [TOk (acc ++ data d)]) (length rt) t1 /\ t_res t1 = Some r1 /\
+                (rt = [] -> r1 = inf tc q resp).
+Proof.
+  intros HR Hf Hp Happ Hne Hrt. pose proof HR as (HI & Hq & Hc).
+  destruct rt as [|x rt'].
+  - destruct (ready_last tc Hmt t q acc d resp rest HR Hf Hp Happ Hne) as (Hacc & (A1 & A2 & A3 & A4 & A5)).
+    do 2 eexists. split; [exact Hacc|]. split; [|split; [exact A4 | reflexivity]].
+    apply Rph_send; auto.
+  - assert (HRp : forall a, Rph tc q resp rest (t_out t ++ [TOk (acc ++ data d)]) (length (x :: rt'))
+               (mktgt (Some q) TRtox (Some (rtoxres tc x)) ((rt', resp) :: rest) (t_out t ++ [TOk (acc ++ data d)]) (t_rtx t) a)).
+    { intro a. apply (Rph_rtox tc q resp rest _ _ _ x rt'); cbn; auto.
+      split; cbn; [intros p0 E; injection E as <-; exact Hq | intros r0 E; injection E as <-; apply (rtoxres_ok ic tc Hmt)]. }
+    assert (Hstart : forall a pos res0,
+       t_app_step tc (mktgt (Some q) pos res0 (t_app t) (t_out t) (t_rtx t) a) (acc ++ data d) =
+       (mktgt (Some q) TRtox (Some (rtoxres tc x)) ((rt', resp) :: rest) (t_out t ++ [TOk (acc ++ data d)]) (t_rtx t) a,
+        Some (PDepRes (rtoxres tc x)))).
+    { intros a pos res0. unfold t_app_step, t_app_continue. cbn [t_app t_pni t_pos t_res t_out t_rtx t_act]. rewrite Happ. reflexivity. }
+    unfold t_accept.
+    destruct Hc as [(Hpos & -> & -> & Hn)|[(sd & pt & Hpos & Hl & Hn & -> & ->)|(pt & Hpos & Hn & ->)]]; rewrite Hpos.
+    + unfold t_recv_chain. rewrite Hf. change (F_INF =? F_MORE) with false. cbv iota. rewrite Hstart.
+      do 2 eexists. split; [reflexivity|]. split; [apply HRp|]. split; [reflexivity | discriminate].
+    + replace (tc_miu tc <? len sd) with false by lia. cbn [andb]. rewrite Hn, Hp. rewrite Z.eqb_refl. cbn [negb].
+      replace (drop (tc_miu tc) sd) with (@nil Z) by (symmetry; apply drop_nil_iff; lia).
+      unfold t_recv_chain, t_set_pni. rewrite Hf. change (F_INF =? F_MORE) with false. cbv iota. rewrite Hstart.
+      do 2 eexists. split; [reflexivity|]. split; [apply HRp|]. split; [reflexivity | discriminate].
+    + rewrite Hn, Hp. rewrite Z.eqb_refl. cbn [negb].
+      unfold t_recv_chain, t_set_pni. rewrite Hf. change (F_INF =? F_MORE) with false. cbv iota. rewrite Hstart.
+      do 2 eexists. split; [reflexivity|]. split; [apply HRp|]. split; [reflexivity | discriminate].
+Qed.
+
+Lemma Rph0_sending q resp rest out0 t : resp <> [] -> Rph tc q resp rest out0 0 t ->
+  Sending tc t q resp /\ t_app t = rest /\ t_out t = out0.
+Proof.
+  intros Hne [x rt A B C D E F G I|A B C D E F]; [lia|]. split; [|auto]. split; [exact A|]. auto.
+Qed.
+
 (* ------------------------------------------------------------ the send loop *)
-Lemma send_loop_spec resp rest n : forall p sd last acc t w out w',
-  Ready tc t p acc -> w_t w = t -> t_app t = (0, resp) :: rest -> resp <> [] -> sd <> [] -> (length sd <= n)%nat ->
+Lemma send_loop_spec rt resp rest n : forall p sd last acc t w out w',
+  Ready tc t p acc -> w_t w = t -> t_app t = (rt, resp) :: rest -> resp <> [] -> sd <> [] -> (length sd <= n)%nat ->
+  Forall rt_ok rt -> (length rt <= 3)%nat -> (norx -> rt = []) ->
   send_loop n fuel ic tc p sd last timeout w = (out, w') ->
   ((exists e, out = Err e /\ comm e) /\ Safe (t_out t) (acc ++ sd) (w_t w')
    \/ exists q, 0 <= q <= 3 /\ out = Ok ((q + 1) mod 4, inf tc q resp) /\ Sending tc (w_t w') q resp /\
-                t_app (w_t w') = rest /\ t_out (w_t w') = t_out t ++ [TOk (acc ++ sd)] /\ t_rtx (w_t w') = t_rtx t) /\
+                t_app (w_t w') = rest /\ t_out (w_t w') = t_out t ++ [TOk (acc ++ sd)]) /\
   (Good (w_script w) -> (exists y, out = Ok y) /\ Good (w_script w')).
 Proof.
-  induction n as [|n IH]; intros p sd last acc t w out w' HR Hw Happ Hne Hsd Hlen H.
+  induction n as [|n IH]; intros p sd last acc t w out w' HR Hw Happ Hne Hsd Hlen Hrt Hrl Hnx H.
   { destruct sd; [congruence | cbn in Hlen; lia]. }
   destruct sd as [|b sd0]; [congruence|]. remember (b :: sd0) as sd eqn:Esd.
   assert (Hsd0 : send_loop (S n) fuel ic tc p sd last timeout w =
@@ -94,24 +157,61 @@ Proof.
     assert (Hc : chunk = sd) by (rewrite <- Hcs; symmetry; apply app_nil_r).
     set (d := i_dep ic F_INF p chunk) in *.
     assert (Hreq : req_ok ic d) by (apply (i_dep_ok ic tc); unfold F_INF; lia).
-    destruct (ready_last tc Hmt t p acc d resp rest HR eq_refl eq_refl Happ Hne) as (Hacc & HS).
-    match type of Hacc with _ = (?tt, _) => set (t1 := tt) in * end.
+    destruct (ready_last_gen t p acc d rt resp rest HR eq_refl eq_refl Happ Hne Hrt) as (t1 & r1 & Hacc & HP1 & Er1 & Hr1).
+    set (out1 := t_out t ++ [TOk (acc ++ data d)]) in *.
+    assert (Eout1 : out1 = t_out t ++ [TOk (acc ++ sd)]) by (unfold out1, d; cbn; rewrite Hc; reflexivity).
+    destruct (Rph_facts ic tc Hmt p resp rest out1 Hp _ _ HP1) as (_ & _ & Eo1 & r0 & Er0 & Hok1 & Hnak1 & Hk1).
+    rewrite Er1 in Er0. injection Er0 as <-.
     destruct (srr fuel ic tc p d 1 timeout w) as [o1 w1] eqn:Es.
-    destruct (srr_call p w o1 w1 t t1 d (inf tc p resp) Hreq ltac:(auto) HI Hpos Hnew Hfirst Hacc Hw Hp Es) as (A & B & C).
+    destruct (srr_call p w o1 w1 t t1 d r1 Hreq ltac:(auto) HI Hpos Hnew Hfirst Hacc Hw Hp Es) as (A & B & C).
     assert (Hsafe : Safe (t_out t) (acc ++ sd) (w_t w1)).
-    { destruct A as [-> |[-> | ->]]; [left; reflexivity | left; apply awake_out | right; cbn; rewrite <- Hc; reflexivity]. }
+    { destruct A as [-> |[-> | ->]]; [left; reflexivity | left; apply awake_out | right; rewrite Eo1; exact Eout1]. }
     assert (Hfr : fmt (inf tc p resp) <> F_RTOX /\ fmt (inf tc p resp) <> F_ACK /\ fmt (inf tc p resp) <> F_NAK).
     { unfold inf. cbn. destruct (tc_miu tc <? len resp); unfold F_MORE, F_INF, F_RTOX, F_ACK, F_NAK; lia. }
+    (* what the script class tells about an RTOX answer *)
+    assert (Hfok : Good (w_script w) -> fmt_ok r1 d (w_script w)).
+    { intro HG. split; [exact Hnak1|]. destruct Hk1 as [[-> _]|(x1 & -> & _ & _)].
+      - destruct (inf_fmt p resp) as [E|E]; unfold infr; fold (inf tc p resp); rewrite E; auto.
+      - destruct HG as [[E _]|[(_ & N & _)|(_ & _ & Hx)]]; [auto | auto 6|].
+        specialize (Hr1 (Hnx Hx)). exfalso. apply (f_equal fmt) in Hr1. unfold inf in Hr1. cbn in Hr1. destruct (tc_miu tc <? len resp); discriminate. }
     destruct B as [[-> B]|[e [-> He]]].
-    + unfold after_rtox in H. replace (fmt (inf tc p resp) =? F_RTOX) with false in H by lia.
-      replace (fmt (inf tc p resp) =? F_ACK) with false in H by lia. cbn [andb] in H.
-      change (pni (inf tc p resp)) with p in H. rewrite Z.eqb_refl in H. cbn [negb] in H.
-      destruct n; cbn [send_loop] in H; injection H as <- <-.
-      all: split; [right; exists p; split; [exact Hp|]; split; [reflexivity|]; rewrite B; split; [exact HS|];
-                   unfold t1, d; cbn; rewrite Hc; auto |
-                   intros Hs; destruct (C Hs (inf_fmt3 _ _ _)) as [_ C2]; split; [eauto | exact C2]].
-    + injection H as <- <-. split; [left; split; [eauto | exact Hsafe]|].
-      intros Hs. destruct (C Hs (inf_fmt3 _ _ _)) as [C1 _]. discriminate.
+    2:{ injection H as <- <-. split; [left; split; [eauto | exact Hsafe]|].
+        intros Hs. destruct (C Hs (Hfok Hs)) as [C1 _]. discriminate. }
+    (* the time-out extension rounds *)
+    assert (Hrx : exists o2 w2, after_rtox fuel ic tc p r1 timeout w1 = (o2, w2) /\
+              (((exists e, o2 = Err e /\ comm e) /\ Safe (t_out t) (acc ++ sd) (w_t w2)) \/
+               (o2 = Ok (inf tc p resp) /\ Rph tc p resp rest out1 0 (w_t w2))) /\
+              (Good (w_script w1) -> o2 = Ok (inf tc p resp) /\ Good (w_script w2))).
+    { unfold after_rtox. destruct (fmt r1 =? F_RTOX) eqn:Ex.
+      - assert (HP3 : Rph tc p resp rest out1 3 (w_t w1)) by (rewrite B; apply (Rph_mono ic tc p resp rest out1 (length rt)); [exact Hrl | exact HP1]).
+        destruct (rtox_loop 3 fuel ic tc p r1 timeout w1) as [o2 w2] eqn:El. exists o2, w2. split; [reflexivity|]. split.
+        + destruct (rtox_loop_R ic tc H106 Hdid Hmt Hmi p resp rest out1 Hp Hne 3 fuel p r1 timeout w1 o2 w2 HP3 ltac:(rewrite B; exact Er1) ltac:(lia) Hp Hfuel El) as [[X Y]|[X Y]].
+          * left. split; [exact X|]. right.
+            destruct (Rph_facts ic tc Hmt p resp rest out1 Hp _ _ Y) as (_ & _ & E & _). rewrite E. exact Eout1.
+          * right. auto.
+        + intro HG.
+          assert (HG' : (w_script w1 = [] /\ 1 <= timeout) \/ (Sparse (w_script w1) /\ NC (w_script w1) /\ 60 <= timeout)).
+          { destruct HG as [G1|[G2|(_ & _ & Hx)]]; [left; exact G1 | right; exact G2|].
+            specialize (Hr1 (Hnx Hx)). exfalso. rewrite Hr1 in Ex. unfold inf in Ex. cbn in Ex. destruct (tc_miu tc <? len resp); discriminate. }
+          destruct (rtox_loop_R_good ic tc H106 Hdid Hmt Hmi p resp rest out1 Hp Hne 3 fuel p r1 timeout w1 HP3 ltac:(rewrite B; exact Er1) ltac:(lia) Hp ltac:(lia) HG')
+            as (w2' & E & _ & U1 & U2).
+          rewrite E in El. injection El as <- <-. split; [reflexivity|].
+          destruct HG' as [[Hs Hto]|(Hs & Hnc & Hto)]; [left; split; [apply U1, Hs | exact Hto] | right; left; destruct (U2 Hs Hnc); auto].
+      - exists (Ok r1), w1. split; [reflexivity|].
+        assert (E1 : r1 = inf tc p resp) by (destruct Hk1 as [[-> _]|(x1 & -> & _)]; [reflexivity | cbn in Ex; discriminate]).
+        split; [right; split; [rewrite E1; reflexivity|]|intro HG; split; [rewrite E1; reflexivity | exact HG]].
+        rewrite B. destruct HP1 as [x2 rt2 A1 A2 A3 A4 A5 A6 A7 A8|A1 A2 A3 A4 A5 A6]; [|apply Rph_send; auto].
+        exfalso. rewrite A5 in Er1. injection Er1 as <-. cbn in Ex. discriminate. }
+    destruct Hrx as (o2 & w2 & Erx & Hres & Hgood). rewrite Erx in H.
+    destruct Hres as [[(e & -> & He) Hs2]|[-> HP0]].
+    { injection H as <- <-. split; [left; split; [eauto | exact Hs2]|].
+      intros Hs. destruct (C Hs (Hfok Hs)) as [_ C2]. destruct (Hgood C2) as [X _]. discriminate. }
+    replace (fmt (inf tc p resp) =? F_ACK) with false in H by lia. cbn [andb] in H.
+    change (pni (inf tc p resp)) with p in H. rewrite Z.eqb_refl in H. cbn [negb] in H.
+    destruct (Rph0_sending p resp rest out1 _ Hne HP0) as (HS & Ha & Ho).
+    destruct n; cbn [send_loop] in H; injection H as <- <-.
+    all: split; [right; exists p; split; [exact Hp|]; split; [reflexivity|]; split; [exact HS|]; split; [exact Ha | rewrite Ho; exact Eout1] |
+                 intros Hs; destruct (C Hs (Hfok Hs)) as [_ C2]; destruct (Hgood C2) as [_ X]; split; [eauto | exact X]].
   - (* more chunks follow *)
     cbn [nonempty] in H.
     set (d := i_dep ic F_MORE p chunk) in *.
@@ -122,7 +222,8 @@ Proof.
     destruct (srr_call p w o1 w1 t t1 d (ack tc p) Hreq ltac:(auto) HI Hpos Hnew Hfirst Hacc Hw Hp Es) as (A & B & C).
     assert (Hsafe : Safe (t_out t) (acc ++ sd) (w_t w1)).
     { destruct A as [-> |[-> | ->]]; [left; reflexivity | left; apply awake_out | left; reflexivity]. }
-    assert (Hackok : Good (w_script w) -> fmt_ok (ack tc p) d) by (intros _; right; right; split; reflexivity).
+    assert (Hackok : Good (w_script w) -> fmt_ok (ack tc p) d (w_script w)).
+    { intros _. split; [cbn; unfold F_ACK, F_NAK; lia | right; right; left; split; reflexivity]. }
     destruct B as [[-> B]|[e [-> He]]].
     + unfold after_rtox in H. change (fmt (ack tc p) =? F_RTOX) with false in H. cbv iota in H.
       change (fmt (ack tc p) =? F_ACK) with true in H. cbn [andb negb nonempty] in H.
@@ -134,7 +235,7 @@ Proof.
         unfold len in *. lia. }
       assert (Eacc : (acc ++ data d) ++ b' :: sd1 = acc ++ sd).
       { cbn [data d i_dep]. rewrite <- app_assoc, Hcs. reflexivity. }
-      destruct (IH ((p + 1) mod 4) (b' :: sd1) (Some (ack tc p)) (acc ++ data d) t1 w1 out w' HR1 B Happ Hne ltac:(discriminate) Hlen' H) as (X & Y).
+      destruct (IH ((p + 1) mod 4) (b' :: sd1) (Some (ack tc p)) (acc ++ data d) t1 w1 out w' HR1 B Happ Hne ltac:(discriminate) Hlen' Hrt Hrl Hnx H) as (X & Y).
       rewrite Eacc in X. split; [exact X|].
       intros Hs. destruct (C Hs (Hackok Hs)) as [_ C2]. apply Y; assumption.
     + injection H as <- <-. split; [left; split; [eauto | exact Hsafe]|].
@@ -182,9 +283,9 @@ Proof.
       { unfold inf. cbn [data]. rewrite <- app_assoc, len_drop_take by lia. exact Hacc. }
       destruct (IH p (drop (tc_miu tc) sd) _ t1 w1 out w' HS1 B ltac:(unfold p; lia) Hacc' Hlen' H) as (X & Y).
       split; [exact X|].
-      intros Hs. destruct (C Hs (inf_fmt3 _ _ _)) as [_ C2]. apply Y; assumption.
+      intros Hs. destruct (C Hs (inf_fmt3 _ _ _ _)) as [_ C2]. apply Y; assumption.
     + injection H as <- <-. split; [left; split; [eauto | exact Hout]|].
-      intros Hs. destruct (C Hs (inf_fmt3 _ _ _)) as [C1 _]. discriminate.
+      intros Hs. destruct (C Hs (inf_fmt3 _ _ _ _)) as [C1 _]. discriminate.
   - (* that was the last chunk *)
     change (F_INF =? F_MORE) with false in H. cbn [negb] in H. injection H as <- <-.
     assert (Hd : drop (tc_miu tc) sd = []) by (apply drop_nil_iff; lia).
@@ -196,20 +297,21 @@ Proof.
 Qed.
 
 (* ------------------------------------------------------------ Initiator.exchange *)
-Lemma exchange_spec n resp rest p x t w out w' :
-  Ready tc t p [] -> w_t w = t -> t_app t = (0, resp) :: rest -> resp <> [] -> x <> [] ->
+Lemma exchange_spec n rt resp rest p x t w out w' :
+  Ready tc t p [] -> w_t w = t -> t_app t = (rt, resp) :: rest -> resp <> [] -> x <> [] ->
   (length x <= n)%nat -> (length resp <= n)%nat ->
+  Forall rt_ok rt -> (length rt <= 3)%nat -> (norx -> rt = []) ->
   ini_exchange n fuel ic tc p x timeout w = (out, w') ->
   ((exists e, out = Err e /\ comm e) /\ Safe (t_out t) x (w_t w')
    \/ exists p', out = Ok (p', resp) /\ Ready tc (w_t w') p' [] /\
-                 t_app (w_t w') = rest /\ t_out (w_t w') = t_out t ++ [TOk x] /\ t_rtx (w_t w') = t_rtx t) /\
+                 t_app (w_t w') = rest /\ t_out (w_t w') = t_out t ++ [TOk x]) /\
   (Good (w_script w) -> (exists y, out = Ok y) /\ Good (w_script w')).
 Proof.
-  intros HR Hw Happ Hne Hx Hlx Hlr H. unfold ini_exchange in H.
+  intros HR Hw Happ Hne Hx Hlx Hlr Hrt Hrl Hnx H. unfold ini_exchange in H.
   destruct (send_loop n fuel ic tc p x None timeout w) as [o1 w1] eqn:Es.
-  destruct (send_loop_spec resp rest n p x None [] t w o1 w1 HR Hw Happ Hne Hx Hlx Es) as (A & B).
+  destruct (send_loop_spec rt resp rest n p x None [] t w o1 w1 HR Hw Happ Hne Hx Hlx Hrt Hrl Hnx Es) as (A & B).
   cbn [app] in A.
-  destruct A as [((e & -> & He) & Hsafe)|(q & Hq & -> & HS & Ha & Ho & Hr)].
+  destruct A as [((e & -> & He) & Hsafe)|(q & Hq & -> & HS & Ha & Ho)].
   - injection H as <- <-. split; [left; split; [eauto | exact Hsafe]|].
     intros Hs. destruct (B Hs) as [[y Hy] _]. discriminate.
   - assert (Hf : (fmt (inf tc q resp) =? F_INF) || (fmt (inf tc q resp) =? F_MORE) = true).
@@ -220,43 +322,49 @@ Proof.
     split.
     + destruct X as [((e & -> & He) & Hout)|(p' & -> & HR' & Ha' & Ho' & Hr')].
       * left. split; [eauto|]. right. rewrite Hout. exact Ho.
-      * right. exists p'. split; [reflexivity|]. split; [exact HR'|]. rewrite Ha', Ho', Hr'. auto.
+      * right. exists p'. split; [reflexivity|]. split; [exact HR'|]. rewrite Ha', Ho'. auto.
     + intros Hs. destruct (B Hs) as [_ B2]. apply Y; assumption.
 Qed.
 
 (* ------------------------------------------------------------ the whole conversation *)
-Definition app_of (R : list (list Z)) : list (Z * list Z) := map (fun r => (0, r)) R.
+(* the target application: per received payload the RTOX values it requests and its response *)
+Definition app_of (R : list (list Z)) : list (list Z * list Z) := map (fun r => ([], r)) R.
+Definition resps (app : list (list Z * list Z)) : list (list Z) := map snd app.
+(* RTOX values in 1..59, at most three extensions per response (the initiator's range(3)) *)
+Definition app_ok (app : list (list Z * list Z)) : Prop :=
+  Forall (fun e => Forall rt_ok (fst e) /\ (length (fst e) <= 3)%nat /\ (norx -> fst e = [])) app.
 
 Definition nonempty_all (L : list (list Z)) : Prop := Forall (fun x => x <> []) L.
 Definition fits (n : nat) (L : list (list Z)) : Prop := Forall (fun x => (length x <= n)%nat) L.
 
-Lemma ini_app_spec n : forall P R p t w l w',
-  Ready tc t p [] -> w_t w = t -> t_app t = app_of R -> nonempty_all P -> nonempty_all R ->
-  fits n P -> fits n R -> (length P <= length R)%nat ->
+Lemma ini_app_spec n : forall P ap p t w l w',
+  Ready tc t p [] -> w_t w = t -> t_app t = ap -> nonempty_all P -> nonempty_all (resps ap) ->
+  fits n P -> fits n (resps ap) -> (length P <= length ap)%nat -> app_ok ap ->
   ini_app n fuel ic tc p P timeout w = (l, w') ->
-  ((exists j e, (j < length P)%nat /\ l = map IOk (firstn j R) ++ [IErr e] /\ comm e /\
+  ((exists j e, (j < length P)%nat /\ l = map IOk (firstn j (resps ap)) ++ [IErr e] /\ comm e /\
                 (t_out (w_t w') = t_out t ++ map TOk (firstn j P) \/ t_out (w_t w') = t_out t ++ map TOk (firstn (S j) P)))
-   \/ (l = map IOk (firstn (length P) R) /\ t_out (w_t w') = t_out t ++ map TOk P /\
+   \/ (l = map IOk (firstn (length P) (resps ap)) /\ t_out (w_t w') = t_out t ++ map TOk P /\
        exists p', Ready tc (w_t w') p' [])) /\
-  (Good (w_script w) -> l = map IOk (firstn (length P) R) /\ Good (w_script w')).
+  (Good (w_script w) -> l = map IOk (firstn (length P) (resps ap)) /\ Good (w_script w')).
 Proof.
-  induction P as [|x P IH]; intros R p t w l w' HR Hw Happ HnP HnR HfP HfR Hlen H; cbn [ini_app] in H.
+  induction P as [|x P IH]; intros ap p t w l w' HR Hw Happ HnP HnR HfP HfR Hlen Hok H; cbn [ini_app] in H.
   - injection H as <- <-. split.
     + right. cbn. rewrite app_nil_r, Hw. split; [reflexivity|]. split; [reflexivity|]. eauto.
     + intros Hs. cbn. auto.
-  - destruct R as [|resp R]; [cbn in Hlen; lia|].
+  - destruct ap as [|[rt resp] ap]; [cbn in Hlen; lia|]. unfold resps in *. cbn [map snd] in *.
     inversion HnP as [|? ? Hx HnP']; subst. inversion HnR as [|? ? Hr HnR']; subst.
     inversion HfP as [|? ? Hlx HfP']; subst. inversion HfR as [|? ? Hlr HfR']; subst.
+    inversion Hok as [|? ? (Hrt & Hrl & Hnx) Hok']; subst. cbn [fst] in *.
     destruct (ini_exchange n fuel ic tc p x timeout w) as [o1 w1] eqn:Ee.
-    destruct (exchange_spec n resp (app_of R) p x (w_t w) w o1 w1 HR eq_refl Happ Hr Hx Hlx Hlr Ee) as (A & B).
-    destruct A as [((e & -> & He) & Hsafe)|(p' & -> & HR' & Ha' & Ho' & Hr')].
+    destruct (exchange_spec n rt resp ap p x (w_t w) w o1 w1 HR eq_refl Happ Hr Hx Hlx Hlr Hrt Hrl Hnx Ee) as (A & B).
+    destruct A as [((e & -> & He) & Hsafe)|(p' & -> & HR' & Ha' & Ho')].
     + injection H as <- <-. split.
       * left. exists 0%nat, e. cbn [firstn map app length]. split; [lia|]. split; [reflexivity|]. split; [exact He|].
         destruct Hsafe as [Hs|Hs]; [left; rewrite Hs, app_nil_r; reflexivity | right; exact Hs].
       * intros Hs. destruct (B Hs) as [[y Hy] _]. discriminate.
     + destruct (ini_app n fuel ic tc p' P timeout w1) as [l2 w2] eqn:Ea. injection H as <- <-.
       cbn in Hlen.
-      destruct (IH R p' (w_t w1) w1 l2 w2 HR' eq_refl Ha' HnP' HnR' HfP' HfR' ltac:(lia) Ea) as (X & Y).
+      destruct (IH ap p' (w_t w1) w1 l2 w2 HR' eq_refl Ha' HnP' HnR' HfP' HfR' ltac:(lia) Hok' Ea) as (X & Y).
       split.
       * destruct X as [(j & e & Hj & -> & He & Hout)|(-> & Hout & Hrd)].
         -- left. exists (S j), e. cbn [firstn map app length]. split; [lia|]. split; [reflexivity|]. split; [exact He|].
@@ -349,6 +457,71 @@ Definition valid_cfg (ic : icfg) (tc : tcfg) : Prop :=
   (1 <= tc_miu tc /\ tc_miu tc + 3 + b2z (is_some (tc_did tc)) + b2z (is_some (tc_nad tc)) <= 254) /\
   (1 <= ic_miu ic /\ ic_miu ic + 3 + b2z (is_some (ic_did ic)) + b2z (is_some (ic_nad ic)) <= 254).
 
+(* RTOX values in 1..59 and at most three extensions per response *)
+Definition rtox_ok (ap : list (list Z * list Z)) : Prop :=
+  Forall (fun e => Forall (fun x => 0 < x < 60) (fst e) /\ (length (fst e) <= 3)%nat) ap.
+Definition no_rtox (ap : list (list Z * list Z)) : Prop := Forall (fun e => fst e = []) ap.
+
+Lemma app_ok_of (norx : Prop) ap : rtox_ok ap -> (norx -> no_rtox ap) -> app_ok norx ap.
+Proof.
+  intros H1 H2. unfold app_ok, rtox_ok, no_rtox in *. rewrite Forall_forall in *. intros e He.
+  destruct (H1 e He) as [A B]. split; [exact A|]. split; [exact B|]. intro Hx. apply (H2 Hx), He.
+Qed.
+Lemma resps_app_of R : resps (app_of R) = R.
+Proof. unfold resps, app_of. rewrite map_map. cbn. apply map_id. Qed.
+Lemma rtox_ok_app_of R : rtox_ok (app_of R) /\ no_rtox (app_of R).
+Proof. unfold rtox_ok, no_rtox, app_of. split; apply Forall_forall; intros e He; apply in_map_iff in He; destruct He as (r & <- & _); cbn; auto. Qed.
+
+(* ---- with time-out extensions: the target application may call send_timeout_extension up to three times before
+   each response.  Safety for EVERY fault script: the payloads handed to either application are prefixes of what the
+   other one passed to exchange() - in particular an RTOX value octet is never delivered as payload ---- *)
+Theorem dep_safety_rtox_thm ic tc n fuel script P ap timeout release :
+  valid_cfg ic tc -> Z.max 0 timeout < Z.of_nat fuel -> rtox_ok ap ->
+  nonempty_all P -> nonempty_all (resps ap) -> fits n P -> fits n (resps ap) -> (length P <= length ap)%nat ->
+  let o := conversation n fuel ic tc script P ap timeout release in
+  exists j k itail ttail,
+    o_ini o = map IOk (firstn j (resps ap)) ++ itail /\
+    (itail = [] /\ j = length P \/ exists e, itail = [IErr e] /\ comm e /\ (j < length P)%nat) /\
+    o_tgt o = map TOk (firstn k P) ++ ttail /\ tail_ok ttail /\
+    (j <= k <= j + 1)%nat /\ (k <= length P)%nat.
+Proof.
+  intros (H106 & Hdid & Hmt & Hmi) Hfuel Hrx HnP HnR HfP HfR Hlen. cbv zeta. unfold conversation.
+  destruct (ini_app n fuel ic tc 0 P timeout (mkw (tgt_init ap) script 0 [])) as [ir w1] eqn:Ea.
+  destruct (ini_app_spec ic tc fuel timeout False H106 Hdid Hmt Hmi Hfuel n P ap 0 (tgt_init ap) (mkw (tgt_init ap) script 0 []) ir w1
+              (ready_init tc ap) eq_refl eq_refl HnP HnR HfP HfR Hlen (app_ok_of False ap Hrx (fun f : False => match f with end)) Ea) as (A & _).
+  cbn [o_ini o_tgt].
+  destruct (end_out ic tc H106 Hdid release w1) as (tail & Et & Htail). rewrite Et.
+  destruct A as [(j & e & Hj & -> & He & [Ho|Ho])|(-> & Ho & _)]; rewrite Ho; cbn [tgt_init t_out app].
+  - exists j, j, [IErr e], tail. repeat split; auto; try lia. right. eauto.
+  - exists j, (S j), [IErr e], tail. repeat split; auto; try lia. right. eauto.
+  - exists (length P), (length P), [], tail. rewrite app_nil_r, firstn_all. repeat split; auto; lia.
+Qed.
+
+(* exactness on scripts without unrecoverable faults: fault free, or isolated single faults (lost / corrupted request, lost
+   response) with no corrupted response and a time-out of at least 60 RWT (above the largest RTOX value), or - without
+   time-out extension - isolated single faults of any kind *)
+Theorem dep_exact_rtox_thm ic tc n fuel script P ap timeout release :
+  valid_cfg ic tc -> Z.max 0 timeout < Z.of_nat fuel -> rtox_ok ap ->
+  ((script = [] /\ 1 <= timeout) \/ (Sparse script /\ NC script /\ 60 <= timeout) \/ (Sparse script /\ 2 <= timeout /\ no_rtox ap)) ->
+  nonempty_all P -> nonempty_all (resps ap) -> fits n P -> fits n (resps ap) -> (length P <= length ap)%nat ->
+  let o := conversation n fuel ic tc script P ap timeout release in
+  o_ini o = map IOk (firstn (length P) (resps ap)) /\
+  exists ttail, o_tgt o = map TOk P ++ ttail /\ tail_ok ttail.
+Proof.
+  intros (H106 & Hdid & Hmt & Hmi) Hfuel Hrx HG HnP HnR HfP HfR Hlen. cbv zeta. unfold conversation.
+  destruct (ini_app n fuel ic tc 0 P timeout (mkw (tgt_init ap) script 0 [])) as [ir w1] eqn:Ea.
+  destruct (ini_app_spec ic tc fuel timeout (no_rtox ap) H106 Hdid Hmt Hmi Hfuel n P ap 0 (tgt_init ap) (mkw (tgt_init ap) script 0 []) ir w1
+              (ready_init tc ap) eq_refl eq_refl HnP HnR HfP HfR Hlen (app_ok_of _ ap Hrx (fun h => h)) Ea) as (A & B).
+  destruct (B HG) as [-> _]. cbn [o_ini o_tgt]. split; [reflexivity|].
+  destruct (end_out ic tc H106 Hdid release w1) as (tail & Et & Htail). rewrite Et.
+  destruct A as [(j & e & Hj & E & _)|(_ & Ho & _)].
+  - exfalso. assert (Hin : In (IErr e) (map IOk (firstn (length P) (resps ap)))).
+    { rewrite E. apply in_or_app. right. left. reflexivity. }
+    apply in_map_iff in Hin. destruct Hin as (x & Hx & _). discriminate.
+  - rewrite Ho. cbn. eauto.
+Qed.
+
+(* ---- the statements without time-out extension are the instances ap = app_of R ---- *)
 Theorem dep_safety_thm ic tc n fuel script P R timeout release :
   valid_cfg ic tc -> Z.max 0 timeout < Z.of_nat fuel ->
   nonempty_all P -> nonempty_all R -> fits n P -> fits n R -> (length P <= length R)%nat ->
@@ -359,16 +532,9 @@ Theorem dep_safety_thm ic tc n fuel script P R timeout release :
     o_tgt o = map TOk (firstn k P) ++ ttail /\ tail_ok ttail /\
     (j <= k <= j + 1)%nat /\ (k <= length P)%nat.
 Proof.
-  intros (H106 & Hdid & Hmt & Hmi) Hfuel HnP HnR HfP HfR Hlen. cbv zeta. unfold conversation.
-  destruct (ini_app n fuel ic tc 0 P timeout (mkw (tgt_init (app_of R)) script 0 [])) as [ir w1] eqn:Ea.
-  destruct (ini_app_spec ic tc fuel timeout H106 Hdid Hmt Hmi Hfuel n P R 0 (tgt_init (app_of R)) (mkw (tgt_init (app_of R)) script 0 []) ir w1
-              (ready_init tc (app_of R)) eq_refl eq_refl HnP HnR HfP HfR Hlen Ea) as (A & _).
-  cbn [o_ini o_tgt].
-  destruct (end_out ic tc H106 Hdid release w1) as (tail & Et & Htail). rewrite Et.
-  destruct A as [(j & e & Hj & -> & He & [Ho|Ho])|(-> & Ho & _)]; rewrite Ho; cbn [tgt_init t_out app].
-  - exists j, j, [IErr e], tail. repeat split; auto; try lia. right. eauto.
-  - exists j, (S j), [IErr e], tail. repeat split; auto; try lia. right. eauto.
-  - exists (length P), (length P), [], tail. rewrite app_nil_r, firstn_all. repeat split; auto; lia.
+  intros Hv Hfuel HnP HnR HfP HfR Hlen.
+  pose proof (dep_safety_rtox_thm ic tc n fuel script P (app_of R) timeout release Hv Hfuel (proj1 (rtox_ok_app_of R))) as H.
+  rewrite resps_app_of in H. apply H; try assumption. unfold app_of. rewrite map_length. exact Hlen.
 Qed.
 
 Theorem dep_nofault_exact_thm ic tc n fuel P R timeout release :
@@ -378,21 +544,12 @@ Theorem dep_nofault_exact_thm ic tc n fuel P R timeout release :
   o_ini o = map IOk (firstn (length P) R) /\
   exists ttail, o_tgt o = map TOk P ++ ttail /\ tail_ok ttail.
 Proof.
-  intros (H106 & Hdid & Hmt & Hmi) Hfuel Hto HnP HnR HfP HfR Hlen. cbv zeta. unfold conversation.
-  destruct (ini_app n fuel ic tc 0 P timeout (mkw (tgt_init (app_of R)) [] 0 [])) as [ir w1] eqn:Ea.
-  destruct (ini_app_spec ic tc fuel timeout H106 Hdid Hmt Hmi Hfuel n P R 0 (tgt_init (app_of R)) (mkw (tgt_init (app_of R)) [] 0 []) ir w1
-              (ready_init tc (app_of R)) eq_refl eq_refl HnP HnR HfP HfR Hlen Ea) as (A & B).
-  destruct (B (or_introl (conj eq_refl Hto))) as [-> _]. cbn [o_ini o_tgt]. split; [reflexivity|].
-  destruct (end_out ic tc H106 Hdid release w1) as (tail & Et & Htail). rewrite Et.
-  destruct A as [(j & e & Hj & E & _)|(_ & Ho & _)].
-  - exfalso. assert (Hin : In (IErr e) (map IOk (firstn (length P) R))).
-    { rewrite E. apply in_or_app. right. left. reflexivity. }
-    apply in_map_iff in Hin. destruct Hin as (x & Hx & _). discriminate.
-  - rewrite Ho. cbn. eauto.
+  intros Hv Hfuel Hto HnP HnR HfP HfR Hlen.
+  pose proof (dep_exact_rtox_thm ic tc n fuel [] P (app_of R) timeout release Hv Hfuel (proj1 (rtox_ok_app_of R))
+                (or_introl (conj eq_refl Hto))) as H.
+  rewrite resps_app_of in H. apply H; try assumption. unfold app_of. rewrite map_length. exact Hlen.
 Qed.
 
-(* liveness under the stated budget: if every faulty round is followed by two fault free rounds (every lost or
-   corrupted frame is the only fault of its protocol step) the conversation completes with the exact data *)
 Theorem dep_single_fault_recovered_thm ic tc n fuel script P R timeout release :
   valid_cfg ic tc -> Z.max 0 timeout < Z.of_nat fuel -> 2 <= timeout -> Sparse script ->
   nonempty_all P -> nonempty_all R -> fits n P -> fits n R -> (length P <= length R)%nat ->
@@ -400,17 +557,10 @@ Theorem dep_single_fault_recovered_thm ic tc n fuel script P R timeout release :
   o_ini o = map IOk (firstn (length P) R) /\
   exists ttail, o_tgt o = map TOk P ++ ttail /\ tail_ok ttail.
 Proof.
-  intros (H106 & Hdid & Hmt & Hmi) Hfuel Hto Hsp HnP HnR HfP HfR Hlen. cbv zeta. unfold conversation.
-  destruct (ini_app n fuel ic tc 0 P timeout (mkw (tgt_init (app_of R)) script 0 [])) as [ir w1] eqn:Ea.
-  destruct (ini_app_spec ic tc fuel timeout H106 Hdid Hmt Hmi Hfuel n P R 0 (tgt_init (app_of R)) (mkw (tgt_init (app_of R)) script 0 []) ir w1
-              (ready_init tc (app_of R)) eq_refl eq_refl HnP HnR HfP HfR Hlen Ea) as (A & B).
-  destruct (B (or_intror (conj Hsp Hto))) as [-> _]. cbn [o_ini o_tgt]. split; [reflexivity|].
-  destruct (end_out ic tc H106 Hdid release w1) as (tail & Et & Htail). rewrite Et.
-  destruct A as [(j & e & Hj & E & _)|(_ & Ho & _)].
-  - exfalso. assert (Hin : In (IErr e) (map IOk (firstn (length P) R))).
-    { rewrite E. apply in_or_app. right. left. reflexivity. }
-    apply in_map_iff in Hin. destruct Hin as (x & Hx & _). discriminate.
-  - rewrite Ho. cbn. eauto.
+  intros Hv Hfuel Hto Hsp HnP HnR HfP HfR Hlen.
+  pose proof (dep_exact_rtox_thm ic tc n fuel script P (app_of R) timeout release Hv Hfuel (proj1 (rtox_ok_app_of R))
+                (or_intror (or_intror (conj Hsp (conj Hto (proj2 (rtox_ok_app_of R))))))) as H.
+  rewrite resps_app_of in H. apply H; try assumption. unfold app_of. rewrite map_length. exact Hlen.
 Qed.
 
 (* the configurations produced by activation (Model/Dep.v mk_icfg / mk_tcfg; C19 proves that these are
